@@ -27,19 +27,19 @@ import (
 
 // DCfg tunes the generated disruption world.
 type DCfg struct {
-	Scenario      ScenarioCfg
-	Rounds        int  // provisioning rounds used to grow the cluster
-	PodsPerRound  int  // max pods per round
-	PDeletePod    float64 // fraction of workload pods removed afterwards (creates empty / underutilised nodes)
-	PDrift        float64 // probability that a NodeClaim is reported drifted by the provider
-	Policies      []v1.ConsolidationPolicy
+	Scenario         ScenarioCfg
+	Rounds           int     // provisioning rounds used to grow the cluster
+	PodsPerRound     int     // max pods per round
+	PDeletePod       float64 // fraction of workload pods removed afterwards (creates empty / underutilised nodes)
+	PDrift           float64 // probability that a NodeClaim is reported drifted by the provider
+	Policies         []v1.ConsolidationPolicy
 	ConsolidateAfter []string
-	Budgets       func(rng *rand.Rand) []v1.Budget // nil = 100%
-	PTGP          float64
-	PNotReady     float64
-	PUninitialized float64
-	SmallPods     bool
-	OnePodPerNode bool // every workload pod claims the same host port => one workload pod per node => many nodes
+	Budgets          func(rng *rand.Rand) []v1.Budget // nil = 100%
+	PTGP             float64
+	PNotReady        float64
+	PUninitialized   float64
+	SmallPods        bool
+	OnePodPerNode    bool // every workload pod claims the same host port => one workload pod per node => many nodes
 }
 
 func DefaultDCfg() DCfg {
